@@ -667,6 +667,13 @@ def run(ctx, rep):
     import api_rules as AR
     ng = AR.check_getters(fx, rep, "C19.api", "mapping::MappingSummary")
     AR.check_mapping_wiring(fx, rep, "C19.api")
+    # "answers equal a fold over the complete record stream" of *these bytes*: the mapping holds nothing but its byte slice - a memo
+    # cell or a cached answer next to it (copied by `section()` / `clone()`) makes an answer depend on what was asked before
+    adt_ = fx.adt("proguard::mapping::ProguardMapping")
+    flds = [(f_["name"], f_["ty"]) for f_ in adt_["variants"][0]["fields"]] if adt_ else []
+    rep.check("C19.S", "C19.S/mapping-is-its-bytes", len(flds) == 1 and not (adt_ or {}).get("interior"), loc=F.short_file(adt_["sp"]) if adt_ else "",
+              found="ProguardMapping fields: %s; interior mutability: %s" % (flds, (adt_ or {}).get("interior")),
+              expected="one field (the bytes), no interior mutability", nontrivial=False)
     # "a method record anywhere in the file": the record stream itself (line discipline, dispatch, grammars) is a premise
     import parser_rules as PRM
     PRM.check_parser_premises(fx, rep, "C19.P")
